@@ -516,10 +516,24 @@ def check_features(ctx, fi, block, total):
             try:
                 got = ev.ev(c)
             except AnalysisError as e:
+                # a value handed through a helper of this module (`ans = helper(Q, y, noise)` ... `ans[1]`): what it holds is the helper's business
+                helper_results = {a.targets[0].id for a in ast.walk(fi.node) if isinstance(a, ast.Assign) and len(a.targets) == 1 and isinstance(a.targets[0], ast.Name)
+                                  and isinstance(a.value, ast.Call) and isinstance(a.value.func, ast.Name) and a.value.func.id in fi.module.funcs}
+                if any(isinstance(n, ast.Name) and n.id in helper_results for n in ast.walk(c)) or \
+                        any(isinstance(n, ast.Call) and isinstance(n.func, ast.Name) and n.func.id in fi.module.funcs for n in ast.walk(c)):
+                    raise AnalysisError('%s: the recorded value `%s` is the result of a helper of this module; the estimate / variance it returns is not followed'
+                                        % (where, U(c)[:60]))
                 got = MatEval({}, atoms).ev(name('__unrecognised__'))
                 ctx.note('%s: appended value `%s` is outside the reduction dialect (%s)' % (where, U(c), e))
+            want_prec = ev.ev(ast.parse('1 / (%s**2 * np.dot(__v__, __v__))' % noise, mode='eval').body)
+            if got.eq(want_prec) and '__var__' not in roles.values() and '__prec__' not in roles.values():
+                # the PRECISION 1 / variance is recorded: the combination then reads sum(p * e) / sum(p)
+                roles[(acc, idx)] = '__prec__'
+                ctx.ob('variance-form', fi, evs[0].stmt, True, 'the precision 1 / (noise^2 * <v, v>) of the linear estimate v.y is recorded: %r' % got,
+                       construct='variance recorded in ' + where)
+                continue
             is_var = noise in names_in(c) or got.eq(want_var)
-            if is_var and '__var__' not in roles.values():
+            if is_var and '__var__' not in roles.values() and '__prec__' not in roles.values():
                 roles[(acc, idx)] = '__var__'
                 extra_ = other_fields(evs[0].value)
                 if extra_:
@@ -532,9 +546,10 @@ def check_features(ctx, fi, block, total):
                 roles[(acc, idx)] = '__est__' if '__est__' not in roles.values() else '__other__'
                 ctx.ob('estimate-form', fi, evs[0].stmt, got.eq(want_est), 'the linear estimate is <v, y>: expected %r, source %r' % (want_est, got),
                        construct='estimate recorded in ' + where)
-    if ('__var__' not in roles.values() or '__est__' not in roles.values()) and any(e.kind == 'store' for e in be.events):
+    has_var = '__var__' in roles.values() or '__prec__' in roles.values()
+    if (not has_var or '__est__' not in roles.values()) and any(e.kind == 'store' for e in be.events):
         return None      # already reported: filled by indexed stores
-    if '__var__' not in roles.values() or '__est__' not in roles.values():
+    if not has_var or '__est__' not in roles.values():
         raise AnalysisError('%s: could not tell the variance accumulator from the estimate accumulator' % where)
 
     # ---- result: default, floor, combination --------------------------------------------------------------------
@@ -546,6 +561,8 @@ def check_features(ctx, fi, block, total):
     def view(n):
         if isinstance(n, ast.Name):
             if (n.id, None) in roles:
+                if roles[(n.id, None)] == '__prec__':
+                    return ast.parse('(1 / __var__)', mode='eval').body
                 return name(roles[(n.id, None)])
             if n.id in multi:
                 return name('__acc__')
